@@ -164,7 +164,7 @@ func newRun(c config) (*run, *violation) {
 	// exactly what Scheduler.Start does per handler: Setup, HandleInitialDuties (blocking), HandleDuties
 	h.Setup(h.Name(), logger, &fakeBN{w: w}, nil, netCfg, &fakeVC{w: w}, w.executeDuties, provider, r.reorg, r.idx)
 	h.HandleInitialDuties(ctx)
-	viol, _ := r.m.judge(false, c.startSlot, w.takeLog())
+	viol, _ := r.m.judge(false, c.startSlot, w.takeLog(), nil)
 	go func() {
 		defer close(r.done)
 		h.HandleDuties(ctx)
@@ -172,7 +172,7 @@ func newRun(c config) (*run, *violation) {
 	if !r.barrier() {
 		return r, &violation{"handler-hung", "handler did not reach its select after start"}
 	}
-	if v, _ := r.m.judge(false, c.startSlot, w.takeLog()); viol == nil {
+	if v, _ := r.m.judge(false, c.startSlot, w.takeLog(), nil); viol == nil {
 		viol = v
 	}
 	return r, viol
@@ -212,6 +212,7 @@ func (r *run) step(e byte) (*violation, []string) {
 	w := r.w
 	isTick := e == evTick
 	ok := true
+	var held map[[2]int]bool
 	switch e {
 	case evAdvance:
 		w.clock.Store(w.clock.Load() + 1)
@@ -223,6 +224,7 @@ func (r *run) step(e byte) (*violation, []string) {
 			w.clock.Store(s)
 		}
 		r.pending = false
+		held = r.heldAt(int(s))
 		r.ticker.slot.Store(s)
 		ok = sendOrHang(r.timer, r.ticker.c, time.Time{})
 		r.ticksDone++
@@ -252,9 +254,9 @@ func (r *run) step(e byte) (*violation, []string) {
 		return &violation{"handler-hung", fmt.Sprintf("handler did not accept / complete %s within %v", eventNames[e], hangAfter)}, nil
 	}
 	if e == evReorgPrev || e == evReorgCur || e == evIndices {
-		r.m.markDirty()
+		r.m.notice(e, int(w.clock.Load()))
 	}
-	return r.m.judge(isTick, int(w.clock.Load()), w.takeLog())
+	return r.m.judge(isTick, int(w.clock.Load()), w.takeLog(), held)
 }
 
 func (r *run) flags() string {
@@ -286,6 +288,35 @@ func (r *run) storeDump() string {
 	return b.String()
 }
 
+// heldAt: the in-committee duties of the epoch/period of slot that the real store contains for that
+// slot, read just before the tick is delivered (the handler is parked or finishing a no-op
+// barrier notice; it does not write the store).
+func (r *run) heldAt(slot int) map[[2]int]bool {
+	out := map[[2]int]bool{}
+	u := uint64(r.cfg.kind.unitOfSlot(slot))
+	switch r.cfg.kind {
+	case kindAttester:
+		for _, e := range dutystore.VerifDump(r.store.Attester) {
+			if e.Epoch == u && e.Slot == uint64(slot) && e.InCommittee {
+				out[[2]int{int(e.Validator), slot}] = true
+			}
+		}
+	case kindProposer:
+		for _, e := range dutystore.VerifDump(r.store.Proposer) {
+			if e.Epoch == u && e.Slot == uint64(slot) && e.InCommittee {
+				out[[2]int{int(e.Validator), slot}] = true
+			}
+		}
+	default:
+		for _, e := range dutystore.VerifDumpSync(r.store.SyncCommittee) {
+			if e.Epoch == u && e.InCommittee {
+				out[[2]int{int(e.Validator), 0}] = true
+			}
+		}
+	}
+	return out
+}
+
 // key: harness-owned environment + the handler's private flags and duty store (both read from the
 // real objects) + the reference model. Equal keys have equal futures.
 func (r *run) key() string {
@@ -304,7 +335,7 @@ func (r *run) key() string {
 
 // ---- explorer ----
 
-// observations: first explored trace per handler of the labelDropped outcome (informational).
+// observations: first explored trace per handler of the labelLate outcome (informational).
 var observations = map[handlerKind]map[string]interface{}{}
 
 type node struct {
@@ -432,9 +463,9 @@ func explore(r *ev.Run, c config, outcomes map[string]int, workers int) stats {
 			st.transitions++
 			for _, l := range res.labels {
 				outcomes[kindNames[c.kind]+": "+l]++
-				if l == labelDropped && observations[c.kind] == nil && !c.early {
+				if l == labelLate && observations[c.kind] == nil && !c.early {
 					observations[c.kind] = map[string]interface{}{"handler": kindNames[c.kind], "config": c.String(), "events": pathString(res.path),
-						"observation": "at the last tick a duty of an assignment that had been fetched successfully was not dispatched: a notice made the handler drop the assignment and no re-fetch was attempted before the duty's slot (not a C16 violation under the weakest reading)"}
+						"observation": "at the last tick a duty of an assignment that had been fetched successfully was not dispatched: a notice made the handler drop the assignment and it fetched it again only after the execution step of the duty's tick (excused: the handler is re-fetching)"}
 				}
 			}
 			if res.viol != nil {
@@ -620,7 +651,7 @@ func main() {
 		"handlers are driven directly through Setup/HandleInitialDuties/HandleDuties as Scheduler.Start does, one handler at a time (they share no state); the scheduler's two fan-out goroutines are replaced by the explicit enumeration of the order of reorg and indices-change notices",
 		"dispatch = one duty in one call of the ExecuteDutiesFunc handed to the handler (Scheduler.ExecuteDuties' waiting for one third of the slot is not part of this check)",
 		"the clock advances exactly at a tick (tick(s) is processed with EstimatedCurrentSlot = s); notices carry the current slot, as HandleHeadEvent guarantees",
-		"exactly-once is judged in its weakest reading: any reorg/indices notice since the last successful fetch of an epoch/period voids the obligation until that epoch/period is fetched successfully again",
+		"exactly-once: a duty binds when its assignment was fetched successfully before the tick and either no notice concerning that epoch/period (per the handlers' documented contract) has arrived since, or the handler still held the duty in its store when the tick was delivered; a duty released by a notice is excused only if a re-fetch of its epoch/period has been attempted by the end of its tick",
 		"indices-change adds validator 2 to the committee-active set and then notifies; validator 3 is active but not in the operator's committee",
 		"8 slots per epoch, 2 epochs per sync-committee period, taken by the handlers from the BeaconNetwork interface; slot start times lie in the far future of the real clock so no context deadline fires",
 	)
